@@ -347,7 +347,8 @@ def main(chk):
   from vf import build, explore  # noqa: F401
   jobs = []
   combos = [('group', 'sigint', 1), ('group', 'thread', 1), ('plain', 'sigint', 1), ('group', 'sigint', 2),
-            ('repeat', 'thread', 1), ('start', 'sigint', 1), ('subtest', 'thread', 1), ('nested', 'thread', 1)]
+            ('repeat', 'thread', 1), ('start', 'sigint', 1), ('subtest', 'thread', 1), ('nested', 'thread', 1),
+            ('group', 'thread', 2), ('nested', 'thread', 2)]
   bound = 1
   cap = 6000 if quick else 60000
   for prog_name, source, n in combos:
